@@ -10,7 +10,7 @@ rng = random.Random(int(sys.argv[2]) if len(sys.argv) > 2 else 7)
 FILES = {"src/src/cache.cpp": ["C05", "C06", "C18"], "src/src/prober.cpp": ["C07", "C10"], "src/src/hostname.cpp": ["C08", "C17"],
          "src/src/provider.cpp": ["C10", "C11", "C12", "C13"], "src/src/browser.cpp": ["C14", "C15", "C19"],
          "src/src/resolver.cpp": ["C16"], "src/src/dns.cpp": ["C01", "C02", "C03"], "src/src/record.cpp": ["C20", "C06"],
-         "src/src/bitmap.cpp": ["C20", "C03"], "src/src/message.cpp": ["C02", "C20"], "src/src/service.cpp": ["C20", "C14"]}
+         "src/src/bitmap.cpp": ["C20", "C03"], "src/src/message.cpp": ["C02", "C20", "C17", "C11"], "src/src/service.cpp": ["C20", "C14"]}
 OPS = [(r"<=", "<"), (r"(?<![<>=!])<(?![<=])", "<="), (r">=", ">"), (r"==", "!="), (r"!=", "=="), (r"&&", "||"), (r"\|\|", "&&"),
        (r"\btrue\b", "false"), (r"\bfalse\b", "true"), (r"\+\+", "--"), (r"(\d+)\b", None)]
 W = "/tmp/wt_mut"
